@@ -7,6 +7,20 @@
 use crate::errors::ParseError;
 use chrono::{NaiveDate, NaiveDateTime, NaiveTime};
 
+/// Reject input that is not plain ASCII
+///
+/// Fixed-position components (dates, currency codes, BIC parts, D/C marks) are cut out by
+/// byte offset, which panics inside a multi-byte character; none of them can hold
+/// anything but ASCII.
+pub fn require_ascii(input: &str, field_name: &str) -> Result<(), ParseError> {
+    if !input.is_ascii() {
+        return Err(ParseError::InvalidFormat {
+            message: format!("{} must contain only ASCII characters", field_name),
+        });
+    }
+    Ok(())
+}
+
 /// Parse a string with exact length requirement
 pub fn parse_exact_length(
     input: &str,
@@ -137,6 +151,8 @@ pub fn parse_swift_chars(input: &str, field_name: &str) -> Result<String, ParseE
 
 /// Parse BIC code (8 or 11 characters)
 pub fn parse_bic(input: &str) -> Result<String, ParseError> {
+    require_ascii(input, "BIC")?;
+
     if input.len() != 8 && input.len() != 11 {
         return Err(ParseError::InvalidFormat {
             message: format!("BIC must be 8 or 11 characters, found {}", input.len()),
